@@ -23,6 +23,8 @@ Drop(f, k)   == [x \in (DOMAIN f) \ {k} |-> f[x]]
 Leaf(cells, hl, l, hr, r, lsn) == [kind |-> "L", cells |-> cells, hl |-> hl, l |-> l, hr |-> hr, r |-> r, lsn |-> lsn]
 Inner(seps, right, lsn)        == [kind |-> "I", seps |-> seps, right |-> right, lsn |-> lsn]
 Garbage == Inner(<<>>, 0, 0)       \* what an unwritten (all zero) page decodes to
+\* fuel for descending a tree: only a cyclic (corrupted) page graph can use it up
+DepthFuel == 16
 Cell(k, d, v) == [k |-> k, d |-> d, v |-> v]
 Sep(k, c) == [k |-> k, c |-> c]
 
@@ -116,7 +118,7 @@ InsInner(st, d, par, id, key, lsn, val, fuel) ==
 InsertKey(st, d, root, key, lsn, val) ==
   LET n == Rd(st.c, d, root)
       r == IF n.kind = "L" THEN InsLeaf(st, d, 0, root, key, lsn, val)
-                           ELSE InsInner(st, d, 0, root, key, lsn, val, 6)
+                           ELSE InsInner(st, d, 0, root, key, lsn, val, DepthFuel)
       newroot == IF r.up # <<>> /\ r.up[1].root # 0 THEN r.up[1].root ELSE root
   IN [st |-> r.st, root |-> newroot, err |-> r.err]
 
@@ -149,8 +151,10 @@ ChainL(c, d, id, fuel) ==
   ELSE (IF n.hl THEN ChainL(c, d, n.l, fuel - 1) ELSE <<>>) \o n.cells
 
 Live(s) == SelectSeq(s, LAMBDA x : ~x.d)
-AllCellsR(c, d, root) == ChainR(c, d, Leftmost(c, d, root, 6), 40)
-AllCellsL(c, d, root) == ChainL(c, d, Rightmost(c, d, root, 6), 40)
+\* fuel for walking sibling chains: only a cyclic (corrupted) chain can use it up
+ChainFuel == 100000
+AllCellsR(c, d, root) == ChainR(c, d, Leftmost(c, d, root, DepthFuel), ChainFuel)
+AllCellsL(c, d, root) == ChainL(c, d, Rightmost(c, d, root, DepthFuel), ChainFuel)
 ScanRight(c, d, root) == Live(AllCellsR(c, d, root))
 IsBroken(s) == \E i \in 1..Len(s) : s[i].k = -1
 
@@ -220,19 +224,19 @@ ChainPagesL(c, d, id, fuel) ==
   IF n.kind # "L" THEN <<-1>> ELSE <<id>> \o (IF n.hl THEN ChainPagesL(c, d, n.l, fuel - 1) ELSE <<>>)
 
 TreeOK(c, d, root) ==
-  LET pgs == Pages(c, d, root, 6)
-      lvs == LeavesInOrder(c, d, root, 6)
+  LET pgs == Pages(c, d, root, DepthFuel)
+      lvs == LeavesInOrder(c, d, root, DepthFuel)
       cells == AllCellsR(c, d, root)
   IN /\ Cardinality(SeqToSet(pgs)) = Len(pgs)                       \* no page reachable twice
-     /\ Cardinality(Depths(c, d, root, 6)) = 1                      \* all leaves at the same depth
-     /\ Bounded(c, d, root, 0, -1, 6)                               \* separator bounds, ascending keys
+     /\ Cardinality(Depths(c, d, root, DepthFuel)) = 1                      \* all leaves at the same depth
+     /\ Bounded(c, d, root, 0, -1, DepthFuel)                               \* separator bounds, ascending keys
      /\ \A i \in 1..Len(pgs) :                                      \* no node at or over capacity at rest
            LET n == Rd(c, d, pgs[i]) IN
            IF n.kind = "L" THEN Len(n.cells) < LeafCap ELSE Len(n.seps) < IntCap
      /\ lvs # <<>>
-     /\ ChainPagesR(c, d, lvs[1], 40) = lvs                          \* forward chain = leaves in tree order
-     /\ ChainPagesL(c, d, lvs[Len(lvs)], 40) = Rev(lvs)              \* backward chain = exact reverse
+     /\ ChainPagesR(c, d, lvs[1], ChainFuel) = lvs                          \* forward chain = leaves in tree order
+     /\ ChainPagesL(c, d, lvs[Len(lvs)], ChainFuel) = Rev(lvs)              \* backward chain = exact reverse
      /\ ~Rd(c, d, lvs[1]).hl /\ ~Rd(c, d, lvs[Len(lvs)]).hr
      /\ \A i \in 1..Len(cells) :                                     \* every stored key is found from the root
-           LET lf == Rd(c, d, FindLeaf(c, d, root, cells[i].k, 6)) IN lf.kind = "L" /\ HasKey(lf.cells, cells[i].k)
+           LET lf == Rd(c, d, FindLeaf(c, d, root, cells[i].k, DepthFuel)) IN lf.kind = "L" /\ HasKey(lf.cells, cells[i].k)
 =============================================================================
